@@ -43,7 +43,7 @@ inline double *ptr_pool(size_t k) { static double pool[64]; return pool + (k % 6
 template <class T, class = void> struct genval;
 template <> struct genval<bool> { static bool make(Rng &r, bool d, int variant) { return variant == 0 ? !d : r.coin(); } };
 template <class T> struct genval<T, typename std::enable_if<std::is_integral<T>::value && !std::is_same<T, bool>::value>::type> {
-    static T make(Rng &r, T d, int variant) { T v; do { v = (T)(variant >= 2 && r.coin(0.2) ? r.range(1000, 2000000) : r.range(0, 60)); } while (v == d && variant == 0); return v; } };
+    static T make(Rng &r, T d, int variant) { T v; do { v = (T)(variant >= 2 && r.coin(0.2) ? r.range(1000, 2000000) : r.range(1, 60)); } while (v == d && variant == 0); return v; } };
 template <class T> struct genval<T, typename std::enable_if<std::is_floating_point<T>::value>::type> {
     static T make(Rng &r, T d, int variant) { T v; do { v = (T)(variant >= 2 && r.coin(0.3) ? (r.coin() ? -1 : 1) * r.logu(1e-12, 1e9) : r.uni(0.01, 2.0)); } while (v == d); return v; } };
 template <> struct genval<amgcl::preconditioner::side::type> { static amgcl::preconditioner::side::type make(Rng &r, amgcl::preconditioner::side::type d, int variant) {
